@@ -225,6 +225,25 @@ CHECKS['C14'] = dict(
     technique='property-based testing (Hypothesis) with set-membership and '
               'statistical (binomial) oracles over many draws')
 
+CHECKS['C06'] = dict(
+    category='fault_enumeration', design_ref='DESIGN.md §7 (C06)',
+    text='Fault enumeration: a Hypothesis-drawn checkpointed run executes in '
+         'a child under strace; every file-mutating syscall on any path of '
+         'its private directory is a crash point (exhaustive per run, ~10k '
+         'crash points per quick run). The file a kill would leave is '
+         'rebuilt by prefix replay and must be absent-or-S_1 before the '
+         'first checkpoint and afterwards present, readable and logically '
+         'equal (all groups, datasets, attributes) to the last completed or '
+         'the in-progress snapshot. The replay model is validated against '
+         'the real final file and against real SIGKILLs injected by strace; '
+         'sampled crash directories are resumed and must continue exactly '
+         'like the clean snapshot they hold.',
+    note='Process kill only (page cache survives; no fsync ordering / power '
+         'loss); runs are sampled, crash points per run are exhaustive; '
+         'depends on strace being allowed to ptrace.',
+    technique='fault injection / crash-point enumeration by syscall-prefix '
+              'replay over generated runs, validated with real SIGKILLs')
+
 NOT_YET = {}
 
 
